@@ -413,8 +413,11 @@ def classify_kani(unit, rc, out, timed_out, wall):
 
 
 def kani_cmd(unit):
-    cmd = ["cargo", "kani", "--harness", unit["harness"], "--exact"] if unit.get("exact") else \
-          ["cargo", "kani", "--harness", unit["harness"]]
+    # fully qualified harness path + --exact (a bare name matches every harness containing it)
+    modpath = unit["file"][len("src/"):-len(".rs")].replace("/", "::")
+    stem = re.sub(r"[^A-Za-z0-9_]", "_", os.path.splitext(unit["modfile"])[0])
+    full = f"{modpath}::verif_kani_{stem}::{unit['harness']}"
+    cmd = ["cargo", "kani", "--harness", full, "--exact"]
     z = set(unit.get("zflags", []))
     if unit.get("stubs", True):
         z.add("stubbing")
